@@ -430,6 +430,7 @@ class ForLoop(_LoopBase):
             ns = self._env(env, wrap_int(self.i))
             ns.__dict__["iter_pre"] = self.iter_pre
             ns.__dict__["current"] = self.current
+            ns.__dict__["iter_trace"] = c.trace[self.head_index:]
             c.prove(f"loop{self.k}.iteration_post", self.spec.step_post(ns), kind="loop")
         c.prove(f"loop{self.k}.step", self._inv(env, wrap_int(tm.Add(self.i, tm.mk_int(1)))), kind="loop")
         raise PathEnd()
@@ -1353,7 +1354,7 @@ def v_list(*a):
     a = tuple(sym.resolve(x) for x in a)
     if a and isinstance(a[0], SymSeq):
         return a[0]
-    if a and (is_symbolic(a[0]) or isinstance(a[0], (SymItems, SymKeys, SymValues))):
+    if a and (is_symbolic(a[0]) or isinstance(a[0], (SymItems, SymKeys, SymValues)) or hasattr(a[0], "__symseq__")):
         q = as_symseq(a[0])
         if q is not None:
             return q
